@@ -1,0 +1,11 @@
+//go:build verif
+
+package client
+
+import "time"
+
+// VerifScheduleActive exposes schedule.activeForTime to the verification
+// harness (build tag verif only).
+func VerifScheduleActive(start, end string, weekdays []time.Weekday, dates []string, t time.Time) (bool, error) {
+	return newSchedule(start, end, weekdays, dates).activeForTime(t)
+}
